@@ -72,6 +72,9 @@ type actState struct {
 	starts, ends int
 	flying       bool
 	overrunFly   bool
+	lastEnd      Outcome   // outcome logged by the last End
+	endPending   bool      // that End has not yet been followed by a write of the action
+	lastDeadline time.Time // deadline of the context of the last invocation (zero = none)
 }
 
 type gate struct {
@@ -99,7 +102,10 @@ type PlanRun struct {
 	probes     []int
 	dirLog     []string
 	lateStarts int
+	lateEnds   int // an invocation logged a non-overrun End before its deadline, yet the engine recorded a timeout AFTER the deadline
 	startErr   string
+	startOK    int // Start calls that returned nil
+	raced      int // racing Start calls made (0 = one ordinary call)
 }
 
 func (r *PlanRun) logLocked(e Event) {
@@ -233,6 +239,9 @@ func Behave(ctx context.Context, p *hplug.Plugin, req any) (any, *plugins.Error)
 	}
 	a.ends++
 	a.flying = false
+	a.lastEnd = o
+	a.endPending = true
+	a.lastDeadline, _ = ctx.Deadline()
 	run.logLocked(Event{Kind: 'E', Path: a.path, O: o, CtxErr: ctxErr})
 	logMu.Unlock()
 	switch o {
@@ -298,13 +307,37 @@ type LogVault struct {
 	storage.Vault
 }
 
-func logWrite(id uuid.UUID, c Cell, reason int, err error) {
+// engineTimeout: the last attempt carries the engine's own non-permanent error (code 0; every scripted plugin
+// error has a code): the engine gave up on the invocation at its deadline.
+func engineTimeout(attempts []*workflow.Attempt) bool {
+	if n := len(attempts); n > 0 && attempts[n-1] != nil {
+		e := attempts[n-1].Err
+		return e != nil && e.Code == 0 && !e.Permanent
+	}
+	return false
+}
+
+func logWrite(id uuid.UUID, c Cell, reason int, err error) { logWriteTO(id, c, reason, err, false) }
+
+func logWriteTO(id uuid.UUID, c Cell, reason int, err error, timedOut bool) {
 	if err != nil {
 		return
 	}
 	logMu.Lock()
 	if e := objs[id]; e != nil {
 		r := e.run
+		a := r.acts[e.act]
+		pending := a != nil && a.endPending
+		if a != nil {
+			a.endPending = false
+		}
+		if timedOut && pending && !a.flying && a.lastEnd != OOverrun &&
+			!a.lastDeadline.IsZero() && !time.Now().Before(a.lastDeadline) {
+			// The plugin had returned in time (its End is in the log) but on this loaded machine the engine looked
+			// at the answer only after the deadline: a disturbance like a late start, not an observation. The same
+			// signature BEFORE the deadline is not excused.
+			r.lateEnds++
+		}
 		r.logLocked(Event{Kind: 'W', Obj: e.ref, C: c, Reason: reason})
 		m := r.written[e.ref.Term]
 		if m == nil {
@@ -341,9 +374,9 @@ func (v LogVault) UpdateSequence(ctx context.Context, s *workflow.Sequence) erro
 	return err
 }
 func (v LogVault) UpdateAction(ctx context.Context, a *workflow.Action) error {
-	c := cellOf(a.State, a.Attempts)
+	c, to := cellOf(a.State, a.Attempts), engineTimeout(a.Attempts)
 	err := v.Vault.UpdateAction(ctx, a)
-	logWrite(a.ID, c, 0, err)
+	logWriteTO(a.ID, c, 0, err, to)
 	return err
 }
 
